@@ -112,6 +112,15 @@ theorem C08_deque_next_node_ptr {s : DState} {l : List Nat} {a : Nat} (h : WF s 
     nextNodePtr a s = .ok (succOf l a, s) :=
   nextNodePtr_ok h ha
 
+/-- Allocation status: relinking operations change no address's liveness or element, a freeing
+operation changes only the freed address, `push_back` only the fresh address. -/
+theorem C08_deque_allocation_status {s s' : DState} :
+    (∀ l l', Pres s s' l l' → ∀ b, (hget s'.heap b).isSome = (hget s.heap b).isSome) ∧
+    (∀ a, Frees s s' a → ∀ b, b ≠ a → (hget s'.heap b).isSome = (hget s.heap b).isSome) ∧
+    (∀ e, Allocs s s' e → ∀ b, b ≠ s.next → (hget s'.heap b).isSome = (hget s.heap b).isSome) :=
+  ⟨fun _ _ hp b => hp.live_iff b, fun _ hp b hb => hp.live_iff b hb,
+    fun _ hp b hb => hp.live_iff b hb⟩
+
 /-! ## 4. Iterator and cursor -/
 
 /-- From `cursor = None`, `l.length + 1` calls of `next` yield the nodes of `l` front to back
@@ -214,14 +223,31 @@ def threeNodes : DState :=
              (2, some ⟨none, some 1, 30⟩)],
     head := some 0, tail := some 2, len := 3, cursor := none, next := 3 }
 
-example : (exec (mrun [.push 10, .push 20, .push 30]) new).1 = threeNodes := by decide
+/-- (`decide +kernel`: plain `decide` evaluates the monadic run without sharing.) -/
+example : (exec (mrun [.push 10, .push 20, .push 30]) new).1 = threeNodes := by decide +kernel
 
+/-- It is well-formed for `[0, 1, 2]`: directly from the definition … -/
 example : WF threeNodes [0, 1, 2] := by
-  obtain ⟨s, hrun, hex, hwf, _⟩ :=
+  refine ⟨by decide, ?_, rfl, rfl, rfl, Or.inl rfl, rfl, ?_, List.nodup_nil, ?_⟩
+  · intro i a h
+    rcases i with _ | _ | _ | i
+    · simp at h; subst h; exact ⟨_, rfl⟩
+    · simp at h; subst h; exact ⟨_, rfl⟩
+    · simp at h; subst h; exact ⟨_, rfl⟩
+    · simp at h
+  · intro a n h
+    simp only [threeNodes, hget] at h
+    show a < 3
+    grind
+  · intro a h; simp [threeNodes] at h
+
+/-- … and as an instance of the sequence theorem. -/
+example : WF threeNodes [0, 1, 2] := by
+  obtain ⟨s, _, hex, hwf, _⟩ :=
     C08_deque_sequences [.push 10, .push 20, .push 30] ⟨trivial, trivial, trivial, trivial⟩
   have hs : s = threeNodes := by
     have h1 : (exec (mrun [.push 10, .push 20, .push 30]) new).1 = s := by rw [hex]
-    rw [← h1]; decide
+    rw [← h1]; decide +kernel
   have hl : (rrun {} [.push 10, .push 20, .push 30]).1.l = [0, 1, 2] := by decide
   rw [hs, hl] at hwf
   exact hwf
@@ -242,13 +268,13 @@ example :
     (rrun {} demo).1.l = [1] ∧ (rrun {} demo).1.freed = [2, 0] ∧
     (exec (mrun demo) new).2 = some (rrun {} demo).2 ∧
     (exec (mrun demo) new).1.cursor = some .done ∧
-    (exec (mrun demo) new).1.fault = none := by decide
+    (exec (mrun demo) new).1.fault = none := by decide +kernel
 
 /-- Cursor positions along the first part of `demo`. -/
 example :
     (exec (mrun (demo.take 4)) new).1.cursor = some (.node 1) ∧
     (exec (mrun (demo.take 5)) new).1.cursor = some (.node 2) ∧
-    (exec (mrun (demo.take 7)) new).1.cursor = some (.node 1) := by decide
+    (exec (mrun (demo.take 7)) new).1.cursor = some (.node 1) := by decide +kernel
 
 #print axioms C08_deque_sequences
 
